@@ -240,11 +240,7 @@ Definition add_ok (i : N) (p : N * fev) : Prop := msg_ev p \/ snd p = EvWake i \
 
 (* one module event on two agreeing worlds (possibly of two scripts, possibly with two callbacks
    whose results agree) *)
-Lemma dropped_len c c' x : length (c_tasks c) = length (c_tasks c') -> dropped c x = dropped c' x.
-Proof. intros H. unfold dropped. rewrite H. reflexivity. Qed.
-
-Lemma around_agree2 sc sc' now i f f' w w' : length (c_tasks (cfg sc i)) = length (c_tasks (cfg sc' i)) ->
-  Agree i w w' -> CbOK i f -> CbOK i f' -> w_buf w = [] ->
+Lemma around_agree2 sc sc' now i f f' w w' : Agree i w w' -> CbOK i f -> CbOK i f' -> w_buf w = [] ->
   Agree i (x_w (f {| x_w := activate now i w; x_log := [] |})) (x_w (f' {| x_w := activate now i w'; x_log := [] |})) ->
   Agree i (fst (around sc now i f w)) (fst (around sc' now i f' w')) /\
   (exists adds, w_fes (fst (around sc now i f w)) = fes_flush adds (w_fes w) /\
@@ -253,7 +249,7 @@ Lemma around_agree2 sc sc' now i f f' w w' : length (c_tasks (cfg sc i)) = lengt
    x_log (f {| x_w := activate now i w; x_log := [] |}) = x_log (f' {| x_w := activate now i w'; x_log := [] |}) ->
    snd (around sc now i f w) = snd (around sc' now i f' w')).
 Proof.
-  intros Hct H Hok Hok' Hb Ha. unfold around.
+  intros H Hok Hok' Hb Ha. unfold around.
   destruct (Hok {| x_w := activate now i w; x_log := [] |}) as [[_ Ff _ _ _ (lb & Hlb & Mlb)] _].
   destruct (Hok' {| x_w := activate now i w'; x_log := [] |}) as [[_ Ff' _ _ _ _] _].
   cbn [x_w] in Ff, Ff', Hlb. rewrite activate_fes in Ff, Ff'. rewrite activate_buf, Hb in Hlb. cbn [app] in Hlb.
@@ -266,10 +262,9 @@ Proof.
     destruct (lt_nw t (nw (w_mod (x_w s) i))); [|constructor]. constructor; [right; left; reflexivity|constructor]. }
   assert (Hbf : Forall (add_ok i) (w_buf (x_w s))) by (rewrite Hlb; eapply Forall_impl; [|exact Mlb]; intros p Hp; left; exact Hp).
   unfold buf_process, shutdown_part. cbn [w_mod set_buf set_fes]. rewrite <- d1.
-  rewrite (dropped_len (cfg sc i) (cfg sc' i) _ Hct).
   destruct (shut (w_mod (deactivate i (x_w s)) i)) as [r|] eqn:Es; cbn [fst snd].
   - split; [|split].
-    + destruct r; constructor; cbn [w_mod w_buf w_fes set_fes set_mod set_buf]; try reflexivity;
+    + destruct r; constructor; cbn [w_mod w_buf w_fes set_fes set_fin set_mod set_buf]; try reflexivity;
         try (rewrite !N.eqb_refl; reflexivity); intros j; destruct (j =? i); try reflexivity; apply d2.
     + exists (wake_of i (w_mod (x_w s) i) ++ w_buf (x_w s) ++ restart_of i (w_mod (deactivate i (x_w s)) i)).
       unfold restart_of. rewrite Es. rewrite !fes_flush_app.
